@@ -3643,3 +3643,139 @@ def gen_KineticsPy(repo):
         L.append("def pyRet%s : String := %s" % (fname, lean_str(_norm(lre, ret[-1]) if ret else "")))
     L.append("\nend Strengths.Gen")
     return "\n".join(L) + "\n"
+
+
+# =============================================================================================
+# Marshal: the Python <-> C++ boundary of LibRDEngine as a structured table (types, sources, unit conversions),
+# the parameter lists of the two native initialisers, and the two read-back functions
+# =============================================================================================
+@group
+def gen_Marshal(repo):
+    lre = PySrc(repo, "src/strengths/librdengine.py")
+    eng = _cpp(repo, "engine.cpp")
+    L = ["namespace Strengths.Gen.Marshal\n",
+         "inductive CTy | int | dbl | str | intArr | dblArr\n  deriving DecidableEq, Repr\n",
+         "/-- how a value reaches the engine: as it is; converted to the engine's units system (`.convert(units_system).value`);\n"
+         "built by a `build_*_matrix(…, units_system)` function; wrapped as `UnitArray([...], Units(sys=units_system, dim=…)).value` -/",
+         "inductive Conv | none | toEngine | builtInEngine | labelledEngine\n  deriving DecidableEq, Repr\n",
+         "structure PyArg where\n  ty : CTy\n  src : String\n  conv : Conv\n  dim : String\n  deriving DecidableEq, Repr\n",
+         "structure CParam where\n  ty : CTy\n  name : String\n  deriving DecidableEq, Repr\n"]
+
+    def n(node):
+        return _norm(lre, node)
+
+    def is_call(node, fname):
+        return isinstance(node, ast.Call) and n(node.func) == fname
+
+    def converted(node):
+        """E.convert(units_system).value -> (E, True); E.value / E -> (text, False)"""
+        if isinstance(node, ast.Attribute) and node.attr == "value" and isinstance(node.value, ast.Call) \
+                and isinstance(node.value.func, ast.Attribute) and node.value.func.attr == "convert" \
+                and len(node.value.args) == 1 and not node.value.keywords and n(node.value.args[0]) == "units_system":
+            return n(node.value.func.value), True
+        return n(node), False
+
+    def parse_arg(a, where):
+        if not isinstance(a, ast.Call) or a.keywords:
+            raise AnchorLost("librdengine.py:%s argument is not a ctypes wrapper call: %s" % (where, n(a)[:60]))
+        f = n(a.func)
+        if f == "ctypes.c_int" and len(a.args) == 1:
+            return ("int", n(a.args[0]), "none", "")
+        if f == "ctypes.c_double" and len(a.args) == 1:
+            src, cv = converted(a.args[0])
+            return ("dbl", src, "toEngine" if cv else "none", "")
+        if f == "ctypes.c_char_p" and len(a.args) == 1:
+            inner = a.args[0]
+            if isinstance(inner, ast.Call) and isinstance(inner.func, ast.Attribute) and inner.func.attr == "encode" and not inner.args:
+                v = inner.func.value
+                return ("str", n(v), "none", "")
+            raise AnchorLost("librdengine.py:%s c_char_p argument is not <text>.encode()" % where)
+        if f == "make_ctypes_array" and len(a.args) == 2:
+            t = n(a.args[1])
+            if t not in ("ctypes.c_int", "ctypes.c_double"):
+                raise AnchorLost("librdengine.py:%s make_ctypes_array element type %s" % (where, t))
+            ty = "intArr" if t == "ctypes.c_int" else "dblArr"
+            x = a.args[0]
+            if isinstance(x, ast.Call) and isinstance(x.func, ast.Name) and x.func.id.startswith("build_"):
+                args = [n(v) for v in x.args]
+                if args and args[-1] == "units_system":
+                    return (ty, x.func.id + "(" + ",".join(args[:-1]) + ")", "builtInEngine", "")
+                return (ty, x.func.id + "(" + ",".join(args) + ")", "none", "")
+            if isinstance(x, ast.Attribute) and x.attr == "value" and is_call(x.value, "UnitArray") and len(x.value.args) == 2 \
+                    and is_call(x.value.args[1], "Units"):
+                kws = {k.arg: n(k.value) for k in x.value.args[1].keywords}
+                if kws.get("sys") == "units_system" and kws.get("dim", "").endswith("_units_dimensions()"):
+                    return (ty, n(x.value.args[0]), "labelledEngine", kws["dim"][:-len("_units_dimensions()")])
+                return (ty, n(x), "none", "")
+            src, cv = converted(x)
+            return (ty, src, "toEngine" if cv else "none", "")
+        raise AnchorLost("librdengine.py:%s unknown argument wrapper %s" % (where, f))
+
+    def cty(decl, where):
+        d = re.sub(r"\s+", " ", decl.strip())
+        m = re.match(r"^(const char \*|double \*|int \*|double|int) ?(\w+)$", d)
+        if not m:
+            raise AnchorLost("engine.cpp:%s parameter declaration %r" % (where, d))
+        return {"const char *": "str", "double *": "dblArr", "int *": "intArr", "double": "dbl", "int": "int"}[m.group(1)], m.group(2)
+
+    for tag, fname, cname in (("Grid", "_setup_grid", "engineexport_initialize_grid"), ("Graph", "_setup_graph", "engineexport_initialize_graph")):
+        fn = lre.func(fname, "LibRDEngine")
+        call = None
+        for node in ast.walk(fn):
+            if isinstance(node, ast.Call) and n(node.func) == "self._lib." + cname:
+                call = node
+        if call is None or call.keywords:
+            raise AnchorLost("librdengine.py:%s call of %s with positional arguments" % (fname, cname))
+        rows = [parse_arg(a, fname) for a in call.args]
+        L.append("/-- `LibRDEngine.%s`: the arguments of `%s`, in order -/" % (fname, cname))
+        L.append("def py%s : List PyArg := %s" % (tag, lean_list(
+            ["⟨.%s, %s, .%s, %s⟩" % (t, lean_str(s), c, lean_str(d)) for t, s, c, d in rows])))
+        m = re.search(r"extern\s+\"C\"\s+int\s+%s\s*\(([^)]*)\)" % cname, eng)
+        if not m:
+            raise AnchorLost("engine.cpp:%s signature" % cname)
+        params = [cty(p, cname) for p in m.group(1).split(",") if p.strip()]
+        L.append("/-- `%s` in engine.cpp: parameter types and names, in order -/" % cname)
+        L.append("def cpp%s : List CParam := %s\n" % (tag, lean_list(["⟨.%s, %s⟩" % (t, lean_str(nm)) for t, nm in params])))
+
+    # ---- setup(): the engine's units system
+    su = lre.func("setup", "LibRDEngine")
+    st = _stmt_texts(lre, su, lambda t: t.startswith("units_system") or t.startswith("self._units_system") or t.startswith("ifself._requires_molecules"))
+    L.append("/-- `LibRDEngine.setup`: how the engine's units system is derived from the script's -/")
+    L.append("def pyEngineUnits : List String := %s\n" % lean_list([lean_str(s) for s in _need(st, "LibRDEngine.setup units_system statements")]))
+
+    # ---- read-back
+    L.append("structure ReadBack where\n  count : String\n  length : String\n  buffer : String\n  native : String\n  copyLoop : String\n"
+             "  labelSys : String\n  labelDim : String\n  convertTo : String\n  deriving DecidableEq, Repr\n")
+    for tag, fname, var, cfn in (("Data", "_get_data", "data", "engineexport_get_trajectory"), ("TSample", "_get_t_sample", "t_sample", "engineexport_get_tsample")):
+        fn = lre.func(fname, "LibRDEngine")
+        asg = {}
+        for s_ in fn.body:
+            if isinstance(s_, ast.Assign) and len(s_.targets) == 1 and isinstance(s_.targets[0], ast.Name):
+                asg[s_.targets[0].id] = n(s_.value)
+        count = asg.get("n_sample", "")
+        length = asg.get("data_len", "n_sample") if fname == "_get_data" else "n_sample"
+        buf = asg.get(var + "_", "")
+        nat = [n(s_.value) for s_ in fn.body if isinstance(s_, ast.Expr) and isinstance(s_.value, ast.Call)]
+        loops = [n(s_) for s_ in fn.body if isinstance(s_, ast.For)]
+        ret = [s_ for s_ in fn.body if isinstance(s_, ast.Return)]
+        if not (count and buf and len(nat) == 1 and len(loops) == 1 and len(ret) == 1 and var in asg):
+            raise AnchorLost("librdengine.py:%s shape (count, buffer, one native call, one copy loop, one return)" % fname)
+        r = ret[0].value
+        # UnitArray(value=<var>, units=Units(sys=…, dim=…), check_value=False).convert(<target>)
+        if not (isinstance(r, ast.Call) and isinstance(r.func, ast.Attribute) and r.func.attr == "convert" and len(r.args) == 1
+                and is_call(r.func.value, "UnitArray")):
+            raise AnchorLost("librdengine.py:%s return UnitArray(...).convert(...)" % fname)
+        kw = {k.arg: k.value for k in r.func.value.keywords}
+        if n(kw.get("value", ast.Constant(None))) != var or not is_call(kw.get("units"), "Units"):
+            raise AnchorLost("librdengine.py:%s returned UnitArray(value=%s, units=Units(...))" % (fname, var))
+        ukw = {k.arg: n(k.value) for k in kw["units"].keywords}
+        L.append("/-- `LibRDEngine.%s` -/" % fname)
+        L.append("def py%s : ReadBack := ⟨%s⟩" % (tag, ", ".join(lean_str(x) for x in (
+            count, length + "|" + asg.get("data_len", ""), buf, nat[0], loops[0] + "|" + asg[var], ukw.get("sys", ""), ukw.get("dim", ""), n(r.args[0])))))
+        m = re.search(r"extern\s+\"C\"\s+int\s+%s\s*\(([^)]*)\)" % cfn, eng)
+        if not m:
+            raise AnchorLost("engine.cpp:%s signature" % cfn)
+        ps = [cty(p, cfn) for p in m.group(1).split(",") if p.strip()]
+        L.append("def cpp%s : List CParam := %s\n" % (tag, lean_list(["⟨.%s, %s⟩" % (t, lean_str(nm)) for t, nm in ps])))
+    L.append("end Strengths.Gen.Marshal")
+    return "\n".join(L) + "\n"
